@@ -12,15 +12,31 @@ import (
 //
 //	_mref   `p |= f`: for every path of p (computed on the original input), in order: the FIRST output
 //	        of f on the current value at that path is stored there; when f is empty the path is collected
-//	        and all collected paths are deleted together at the end (one delpaths, so that indices keep
-//	        their meaning)
+//	        and all collected paths are deleted together at the end (_dref, so that indices keep their
+//	        meaning)
 //	_aref   `p = $x`
-//	_dref   delpaths(ps) as single deletions in descending path order (only when no path contains a
-//	        slice or a negative index, where "descending" is not meaningful without the value)
+//	_norm   a path resolved against a value: negative indices and slice bounds become positions of THAT value,
+//	        a slice becomes the index paths of its elements, paths that do not exist vanish; navigating
+//	        into a scalar is the error "_norm: type" (then the case is inconclusive: whether deleting below
+//	        an already deleted scalar is an error depends on the order in jq as well)
+//	_dref   delpaths(ps): every path is resolved against the ORIGINAL value, paths below a deleted path are
+//	        dropped, and the remaining index/key paths are deleted one by one in descending order
 //	_ts     tostream by structural recursion; _pp paths by structural recursion
-const defs = `def _mref(p; f): reduce path(p) as $q ([., []]; . as [$v, $d] | [first($v | getpath($q) | f)] as $r | if ($r | length) == 0 then [$v, $d + [$q]] else [($v | setpath($q; $r[0])), $d] end) | . as [$v, $d] | $v | delpaths($d); ` +
+const defs = `def _clampi($i; $lo; $hi): (if $i < 0 then $i + $hi else $i end) | if . < $lo then $lo elif . < $hi then . else $hi end; ` +
+	`def _norm($v; $p): if ($p | length) == 0 then [] else $p[0] as $k | $p[1:] as $r | ($v | type) as $t | ` +
+	`if ($k | type) == "object" then (if $t == "array" then ($v | length) as $n | ` +
+	`(if $k.start == null then 0 else _clampi($k.start; 0; $n) end) as $s | (if $k.end == null then $n else _clampi($k.end; $s; $n) end) as $e | ` +
+	`if ($r | length) == 0 then (range($s; $e) | [.]) else (_norm($v[$s:$e]; $r) | [.[0] + $s] + .[1:]) end ` +
+	`elif $t == "null" then empty else error("_norm: type") end) ` +
+	`elif ($k | type) == "number" then (if $t == "array" then ($v | length) as $n | (if $k < 0 then $k + $n else $k end) as $i | ` +
+	`if $i < 0 or $i >= $n then empty else [$i] + _norm($v[$i]; $r) end elif $t == "null" then empty else error("_norm: type") end) ` +
+	`elif ($k | type) == "string" then (if $t == "object" then (if ($v | has($k)) then [$k] + _norm($v[$k]; $r) else empty end) ` +
+	`elif $t == "null" then empty else error("_norm: type") end) else error("_norm: type") end end; ` +
+	`def _dref(ps): . as $v | [(ps)[] | _norm($v; .)] | unique as $qs | ` +
+	`[$qs[] | select(. as $q | any($qs[]; . as $r | ($r | length) < ($q | length) and $q[:($r | length)] == $r) | not)] | reverse | ` +
+	`reduce .[] as $q ($v; delpaths([$q])); ` +
+	`def _mref(p; f): reduce path(p) as $q ([., []]; . as [$v, $d] | [first($v | getpath($q) | f)] as $r | if ($r | length) == 0 then [$v, $d + [$q]] else [($v | setpath($q; $r[0])), $d] end) | . as [$v, $d] | $v | _dref($d); ` +
 	`def _aref(p; $x): reduce path(p) as $q (.; setpath($q; $x)); ` +
-	`def _dref(ps): (ps) as $ps | if any($ps[][]?; type == "object" or (type == "number" and . < 0)) then delpaths($ps) else reduce ($ps | unique | map(select(. as $q | any($ps[]; . as $r | ($r | length) < ($q | length) and $q[:($r | length)] == $r) | not)) | reverse[]) as $q (.; delpaths([$q])) end; ` +
 	`def _ts($p): if (type == "array" or type == "object") and length > 0 then (keys as $ks | ($ks[] as $k | .[$k] | _ts($p + [$k])), [$p + [$ks[-1]]]) else [$p, .] end; ` +
 	`def _pp: if type == "object" or type == "array" then (keys[] as $k | [$k], ([$k] + (.[$k] | _pp))) else empty end; `
 
@@ -290,7 +306,7 @@ func (g *gen) pathExpr(v any, d int) string {
 	case 5:
 		return "(" + sub() + ", " + sub() + ", " + sub() + ")"
 	case 6:
-		return g.pick("..", "recurse", "recurse(.[]?)", "recurse(if type == \"array\" then .[0] elif type == \"object\" then .a else empty end; . != null)", "(.. | select(" + g.cond() + "))", "recurse(.[]?; " + g.cond() + ")", "..?")
+		return g.pick("..", "recurse", "recurse(.[]?)", "recurse(if type == \"array\" then .[0] elif type == \"object\" then .a else empty end; . != null)", "(.. | select("+g.cond()+"))", "recurse(.[]?; "+g.cond()+")", "..?")
 	case 7:
 		return "(" + sub() + " | select(" + g.cond() + "))"
 	case 8:
@@ -554,5 +570,57 @@ func fixedCases() []*Case {
 	inv("path(2|.)", "2|.", "1")
 	inv("(.[0]|[7]|.[0]) |= 1", ".[0]|[7]|.[0]", "[[7]]")
 	inv("path(.[]|tojson|.[0:1])", ".[]|tojson|.[0:1]", `["ab"]`)
+	return cs
+}
+
+// ---- systematic block: slices reaching the end of the array in every position relative to negative
+// indices, negative slice bounds and out-of-range indices; all ordered pairs, all (thorough/search) or a
+// seed-dependent eighth (quick) of the ordered triples, over a small array ----
+
+var tailAlts = []string{".[2:]", ".[1:4]", ".[-2:]", ".[0:]", ".[3:]", ".[4:]", ".[5:]", ".[-1:]", ".[-1]", ".[-2]", ".[-4]", ".[-5]",
+	".[:-1]", ".[-3:-1]", ".[1:-1]", ".[4]", ".[7]", ".[0]", ".[2]", ".[1:2]"}
+
+func tailCases(seed uint64, all bool) []*Case {
+	var cs []*Case
+	ops := []struct {
+		name string
+		mk   func(p string) (string, string)
+	}{
+		{"del", func(p string) (string, string) { return "del(" + p + ")", "_dref([path(" + p + ")])" }},
+		{"modify", func(p string) (string, string) { return p + " |= (empty)", "_mref(" + p + "; (empty))" }},
+		{"modify", func(p string) (string, string) {
+			f := "if . == 1 or . == 3 then empty else . + 10 end"
+			return p + " |= (" + f + ")", "_mref(" + p + "; (" + f + "))"
+		}},
+	}
+	add := func(alts []string, pre, input string) {
+		p := "(" + strings.Join(alts, ", ") + ")"
+		if pre != "" {
+			for i := range alts {
+				alts[i] = pre + alts[i][1:]
+			}
+			p = "(" + strings.Join(alts, ", ") + ")"
+		}
+		for _, op := range ops {
+			l, r := op.mk(p)
+			c := eqCase(op.name, "", l, r, input)
+			c.P, c.ScalarF = p, true
+			cs = append(cs, c)
+		}
+	}
+	n := len(tailAlts)
+	for i := 0; i < n; i++ {
+		for j := 0; j < n; j++ {
+			add([]string{tailAlts[i], tailAlts[j]}, "", "[0,1,2,3]")
+			if (i+j)%2 == 0 {
+				add([]string{tailAlts[i], tailAlts[j]}, ".a", `{"a":[0,1,2,3],"b":[4]}`)
+			}
+			for k := 0; k < n; k++ {
+				if all || (uint64(i*n*n+j*n+k)+seed)%8 == 0 {
+					add([]string{tailAlts[i], tailAlts[j], tailAlts[k]}, "", "[0,1,2,3]")
+				}
+			}
+		}
+	}
 	return cs
 }
